@@ -154,6 +154,16 @@ impl<'a> BlockFiltersProcess<'a> {
                     (cached_check_point, cached_block_filter_hashes)
                 } else {
                     let start_index = (start_number - cached_check_point_number) as usize - 2;
+                    // The cached hashes could be incomplete when a peer sends filters nobody asked for.
+                    if start_index >= cached_block_filter_hashes.len() {
+                        let errmsg = format!(
+                            "no enough cached block filter hashes (length: {}) to check \
+                            the block filters start from {}",
+                            cached_block_filter_hashes.len(),
+                            start_number
+                        );
+                        return StatusCode::Ignore.with_context(errmsg);
+                    }
                     let parent_hash = cached_block_filter_hashes[start_index].clone();
                     cached_block_filter_hashes.drain(..=start_index);
                     (parent_hash, cached_block_filter_hashes)
